@@ -35,9 +35,9 @@ func (g *gen) width() int {
 	}
 }
 
-// bound of exactly w bytes, biased to the ends of the range
+// bound of exactly w bytes, biased to the ends of the range (one byte: from 0, the lower edge of the width rule)
 func (g *gen) boundOfWidth(w int) uint64 {
-	lo, hi := uint64(1), ^uint64(0)
+	lo, hi := uint64(0), ^uint64(0)
 	if w > 1 {
 		lo = pow256(w - 1)
 	}
@@ -66,9 +66,22 @@ func (g *gen) enum() *tm.Type {
 	return tm.EnumMax(g.boundOfWidth(w))
 }
 
+// vec draws a vector type: bounds and the spelling of its tag.
+func (g *gen) vec(elem *tm.Type) *tm.Type {
+	min, max := g.vecBounds()
+	form := []string{"minmax", "minmax", "maxmin", "max"}[g.pick(4)]
+	if form == "max" && min != 0 {
+		form = "minmax"
+	}
+	return tm.VecForm(min, max, elem, form)
+}
+
 func (g *gen) vecBounds() (uint64, uint64) {
 	max := g.boundOfWidth(g.width())
 	min := uint64(0)
+	if max == 0 { // MaxlenZeroIsWidth; a minimum above the maximum is outside the grammar
+		return 0, 0
+	}
 	switch g.pick(5) {
 	case 0:
 		min = 1
@@ -94,8 +107,7 @@ func (g *gen) scalar() *tm.Type {
 	case 5:
 		return tm.Arr(1 + g.pick(5)*g.pick(8))
 	default:
-		min, max := g.vecBounds()
-		return tm.Vec(min, max, nil)
+		return g.vec(nil)
 	}
 }
 
@@ -105,11 +117,9 @@ func (g *gen) member(depth int) *tm.Type {
 		case 0:
 			return g.structT(depth - 1)
 		case 1:
-			min, max := g.vecBounds()
-			return tm.Vec(min, max, g.structT(depth-1))
+			return g.vec(g.structT(depth - 1))
 		case 2:
-			min, max := g.vecBounds()
-			return tm.Vec(min, max, tm.U([]int{2, 3, 4, 8}[g.pick(4)]))
+			return g.vec(tm.U([]int{2, 3, 4, 8}[g.pick(4)]))
 		}
 	}
 	return g.scalar()
@@ -183,6 +193,9 @@ func (g *gen) value(t *tm.Type, bad bool) tm.Val {
 	case "vec":
 		min, _ := t.Min.U64()
 		max, _ := t.Max.U64()
+		if max == 0 { // MaxlenZeroIsWidth: bounded by the one-byte prefix
+			max = 255
+		}
 		if t.Elem.K == "byte" {
 			n := min
 			switch g.pick(4) {
@@ -303,8 +316,7 @@ func TestRandom(t *testing.T) {
 			if g.pick(2) == 0 {
 				ty = g.enum()
 			} else {
-				min, max := g.vecBounds()
-				ty = tm.Vec(min, max, nil)
+				ty = g.vec(nil)
 			}
 			top = true
 		}
